@@ -456,6 +456,11 @@ def main(tier, seed):
     for disc in discs:
         for shape in shapes:
             J.append(('sym', (disc, shape, None, 'all')))
+        if kind_of(disc) == 'multi':
+            # scores of five and more digits pass the admissible-text pattern as dd + digits: the bound 10000 lives there
+            for dec in (('', 3), ('', 4)) if tier == 'quick' else (('', 3), ('', 4), ('', 5), ('', 6)):
+                J.append(('sym', (disc, ((2,), dec, '', '.'), None, 'all')))
+                J.append(('sym', (disc, ((1,), dec, '', '.'), None, 'all')))
         if kind_of(disc) == 'field':
             # long marks: field events also admit 3-6 digits (PAT_LONG_SECONDS); the optional point lets 7 through
             for L in ((3,), (6,), (7,)) if tier == 'quick' else ((3,), (4,), (5,), (6,), (7,), (8,)):
